@@ -51,9 +51,16 @@ fn main() {
     let outdir = std::env::args().nth(1).expect("outdir");
     // "grown": the same transactions on a file created with 4 pages, so that the first commit extends it
     // by the 8 MiB step (the length is then not a multiple of a page size that does not divide 8 MiB)
-    let grown = std::env::args().nth(2).map(|x| x == "grown").unwrap_or(false);
+    let variant = std::env::args().nth(2).unwrap_or_default();
+    let grown = variant == "grown";
+    // "bigfree": the same transactions followed by a bucket of forty 9000-byte values that is created and deleted
+    // again, so that the committed free list needs more than one page (1 KiB and 4 KiB pages)
+    let bigfree = variant == "bigfree";
     for ps in [1024u64, 4096, 5000, 16384] {
-        let path = if grown { format!("{}/golden-{}-grown.db", outdir, ps) } else { format!("{}/golden-{}.db", outdir, ps) };
+        if bigfree && ps > 4096 {
+            continue;
+        }
+        let path = if grown { format!("{}/golden-{}-grown.db", outdir, ps) } else if bigfree { format!("{}/golden-{}-bigfree.db", outdir, ps) } else { format!("{}/golden-{}.db", outdir, ps) };
         let _ = std::fs::remove_file(&path);
         let db = OpenOptions::new().pagesize(ps).num_pages(if grown { 4 } else { 96 }).open(&path).unwrap();
         // tx 1: a bucket with pairs of all sizes, nested buckets two levels deep
@@ -96,6 +103,22 @@ fn main() {
             tx.delete_bucket(key(3)).unwrap();
             tx.commit().unwrap();
         }
+        if bigfree {
+            let n = if ps == 1024 { 40 } else { 260 };
+            {
+                let tx = db.tx(true).unwrap();
+                let b = tx.create_bucket(key(5)).unwrap();
+                for k in 0..n {
+                    b.put(format!("big{:04}", k).into_bytes(), val(3)).unwrap();
+                }
+                tx.commit().unwrap();
+            }
+            {
+                let tx = db.tx(true).unwrap();
+                tx.delete_bucket(key(5)).unwrap();
+                tx.commit().unwrap();
+            }
+        }
         let mut out: Vec<Value> = Vec::new();
         {
             let tx = db.tx(false).unwrap();
@@ -107,7 +130,7 @@ fn main() {
             }
         }
         drop(db);
-        std::fs::write(format!("{}/golden-{}{}.json", outdir, ps, if grown { "-grown" } else { "" }),
+        std::fs::write(format!("{}/golden-{}{}.json", outdir, ps, if grown { "-grown" } else if bigfree { "-bigfree" } else { "" }),
                        serde_json::to_string(&json!({"pagesize": ps, "profile": "overflow", "nkeys": 16, "nvals": 6,
                                                      "dump": out})).unwrap()).unwrap();
         println!("wrote {} ({} entries)", path, out.len());
